@@ -1,10 +1,12 @@
 package sod
 
 import (
+	"bytes"
 	"encoding/json"
 	"errors"
 	"fmt"
 	"regexp"
+	"strconv"
 	"time"
 )
 
@@ -24,14 +26,31 @@ func (f *indexedField) MarshalJSON() ([]byte, error) {
 	return json.Marshal([]interface{}{f.Value, f.ObjectId})
 }
 
-func (f *indexedField) UnmarshalJSON(data []byte) error {
+func (f *indexedField) UnmarshalJSON(data []byte) (err error) {
 	var tuple []interface{}
-	if err := json.Unmarshal(data, &tuple); err != nil {
+
+	// numbers are decoded as json.Number not to loose
+	// precision on 64 bits integers
+	dec := json.NewDecoder(bytes.NewReader(data))
+	dec.UseNumber()
+	if err = dec.Decode(&tuple); err != nil {
 		return err
 	}
+
+	if len(tuple) != 2 {
+		return fmt.Errorf("%w, indexed field must be a [value, id] tuple", ErrCasting)
+	}
+
+	id, ok := tuple[1].(json.Number)
+	if !ok {
+		return fmt.Errorf("%w, object id must be a number", ErrCasting)
+	}
+
+	if f.ObjectId, err = strconv.ParseUint(id.String(), 10, 64); err != nil {
+		return fmt.Errorf("%w, bad object id: %s", ErrCasting, err)
+	}
+
 	f.Value = tuple[0]
-	// Json unmarshals integer to interface{} as float64
-	f.ObjectId = uint64(tuple[1].(float64))
 	return nil
 }
 
@@ -79,20 +98,36 @@ func newIndexedField(value interface{}, objid uint64) (*indexedField, error) {
 	return &indexedField{value, objid}, err
 }
 
-func (f *indexedField) valueTypeFromString(t string) {
-	// we cast everything to float64 because json unmarshal interface{}
-	// to float64 and that is a current limitation of the indexing
+// valueTypeFromString casts a value decoded from JSON (json.Number or string)
+// to the type used by the index
+func (f *indexedField) valueTypeFromString(t string) (err error) {
+	if t == "string" {
+		if _, ok := f.Value.(string); !ok {
+			return fmt.Errorf("%w, cannot cast %T(%v) to %s", ErrCasting, f.Value, f.Value, t)
+		}
+		return nil
+	}
+
+	n, ok := f.Value.(json.Number)
+	if !ok {
+		return fmt.Errorf("%w, cannot cast %T(%v) to %s", ErrCasting, f.Value, f.Value, t)
+	}
+
 	switch t {
 	case "float64":
-		f.Value = f.Value.(float64)
+		f.Value, err = n.Float64()
 	case "int64":
-		f.Value = int64(f.Value.(float64))
+		f.Value, err = strconv.ParseInt(n.String(), 10, 64)
 	case "uint64":
-		f.Value = uint64(f.Value.(float64))
-	case "string":
+		f.Value, err = strconv.ParseUint(n.String(), 10, 64)
 	default:
-		panic(fmt.Errorf("%w %s", ErrUnknownKeyType, t))
+		return fmt.Errorf("%w %s", ErrUnknownKeyType, t)
 	}
+
+	if err != nil {
+		return fmt.Errorf("%w, cannot cast %s to %s", ErrCasting, n, t)
+	}
+	return nil
 }
 
 func (f *indexedField) valueTypeString() string {
